@@ -208,6 +208,8 @@ class World:
                           {k: (bytes(v) if isinstance(v, (list, bytes)) else v) for k, v in (s.get("aa55") or {}).items()},
                           s.get("default", 0))
         sim.oserr = [tuple(x) for x in (s.get("oserr") or [])]
+        if s.get("exc_code") is not None:
+            sim.exc_code = int(s["exc_code"])      # the exception code refused requests are answered with (default 2)
         self.sims.append(sim)
         return sim
 
